@@ -124,9 +124,17 @@ def run(ctx, rep):
     # the suffix test of the 'expl' path
     suffix = None
     for n in own_nodes(mod.node):
-        if isinstance(n, ast.If) and isinstance(n.test, ast.Compare) and isinstance(n.test.comparators[0], ast.Constant) \
-                and isinstance(n.test.left, ast.Subscript):
-            suffix = n.test.comparators[0].value
+        if isinstance(n, ast.If) and isinstance(n.test, ast.Compare) and isinstance(n.test.left, ast.Subscript):
+            c = n.test.comparators[0]
+            if isinstance(c, ast.Constant) and isinstance(c.value, str):
+                suffix = c.value
+            elif isinstance(c, ast.Name) and c.id not in mod.locals:
+                try:
+                    v = ctx.fold.global_value(mod.module.name, c.id)      # a module-level string constant
+                except Exception:
+                    v = None
+                if isinstance(v, str):
+                    suffix = v
     if suffix is None:
         raise AnalysisError("'expl]' suffix test not found")
     suf = RL.compile_regex(("cat", [("rep", ("set", frozenset(RL.ALPHABET)), 0, None), ("lit", suffix)]))
@@ -191,7 +199,7 @@ def run(ctx, rep):
     if not rewr:
         rep.ob("M3", False, mod.node, mod, construct="'expl' rewrite", witness="no rewriting path for [..expl] atoms found", key="expl/missing")
     # the rewrite goes through the SMILES reader and the standard printer
-    callees = {g.name for s in ctx.cg.sites(mod) for g in s.callees}
+    callees = {ctx.db.funcs[q].name for q in ctx.cg.region(mod)}
     ok = {"smiles_to_atom", "atom_to_smiles"} <= callees
     rep.ob("M3", ok, mod.node, mod, construct="rewrite uses the SMILES atom reader and the standard printer", how="calls smiles_to_atom and atom_to_smiles",
            witness=None if ok else "legacy atoms are not standardised through smiles_to_atom / atom_to_smiles", key="expl/through-reader-printer")
